@@ -34,9 +34,20 @@ def validate(work, module, tracefile, stats, procs=6, workers=2):
 
 
 def replay_file(work, module, path):
-    """--replay: re-validate recorded lines with TLC (the recorded real-code outcome vs the specification)."""
+    """--replay: re-execute the recorded inputs against the current tree where the line kind allows it (vh rerun), then
+    validate the lines with TLC (real-code outcome vs the specification)."""
+    try:
+        vh = common.build_vh(work)
+        fresh = work.path("replay.ndjson")
+        p = common.run([vh, "rerun", path, fresh], cwd=work.dir, timeout=600)
+        if p.returncode == 0 and os.path.getsize(fresh) > 0:
+            log(p.stdout.strip()[-200:])
+            path = fresh
+    except Infra as e:
+        log("replay: could not re-execute, validating the recorded outcome (%s)" % str(e)[:100])
     bad, tstates, tgen, lines = common.tlc_trace(work, module, path, procs=1, workers=1)
-    viol = [(line_desc(lines[i - 1]), [lines[i - 1]]) for i in bad]
+    byid = {json.loads(l).get("id"): l for l in lines}
+    viol = [(line_desc(byid[i]), [byid[i]]) for i in bad if i in byid]
     return dict(violations=viol, coverage=dict(states=tstates, transitions=tgen, traces_validated_against_impl=len(lines),
                                                 samples=[lines[0][:500]]))
 
